@@ -26,6 +26,42 @@ def success_edges(bv, pred):
     return out
 
 
+def key_map_registers_all(nw, W):
+    """Does StandardCupv2Handler::new register (id -> key) for the latest key and for every historical key?
+    Recognised spellings: once(latest).chain(historical).map(|k| (k.id, k.key)).collect(), and HashMap::new() followed by
+    insert(latest.id, latest.key) plus a loop over keys.historical inserting (k.id, k.key) that only ends by exhaustion.
+    -> (True/False/None for an unknown spelling, detail)"""
+    t = nw.trace_local(0)
+    agg = [x for x in walk(t) if x[0] == "agg" and x[2] and x[2].endswith("StandardCupv2Handler::StandardCupv2Handler")]
+    if not agg:
+        return None, "no StandardCupv2Handler aggregate"
+    nm = agg[0][4]
+    mp = terms.render(nw, agg[0][3][nm.index("parameters_by_id")], W, {1: "keys"})
+    if mp.startswith("collect"):
+        return ("chain(once(keys.latest), keys.historical)" in mp and "|$1| tuple{$1.id, $1.key}" in mp), mp[:160]
+    ins = [(bi, tt) for bi, tt in nw.calls() if lib.norm(tt.get("callee") or "").endswith("::insert") and "HashMap" in (tt.get("callee") or "")]
+    if mp.startswith("new(") or mp == "new()" or ins:
+        pairs = set()
+        loops = nw.sccs()
+        for bi, tt in ins:
+            k_ = terms.render(nw, nw.trace_op(tt["args"][1]), W, {1: "keys"})
+            v_ = terms.render(nw, nw.trace_op(tt["args"][2]), W, {1: "keys"})
+            pairs.add((k_, v_, any(bi in L_ for L_ in loops)))
+        latest = ("keys.latest.id", "keys.latest.key", False) in pairs
+        hist = [p_ for p_ in pairs if p_[2] and p_[0].endswith("@Some.0.id") and p_[1].endswith("@Some.0.key") and "keys.historical" in p_[0] and p_[0][:-3] == p_[1][:-4]]
+        exhaustive = True
+        for L_ in loops:
+            for a_ in L_:
+                for b_ in nw.succ[a_]:
+                    if b_ not in L_:
+                        si = guards.switch_info(nw, a_)
+                        if not (si is not None and si.kind == "discr" and (lib.head_call(si.term) or "").endswith("Iterator::next") and si.edge_names(nw, b_) == ["None"]):
+                            exhaustive = False
+        filt = any(w_ in p_[0] for p_ in hist for w_ in ("filter(", "skip(", "take(", "step_by("))
+        return (latest and len(hist) == 1 and len(pairs) == 2 and exhaustive and not filt), "inserts: %s" % sorted(pairs)
+    return None, mp[:160]
+
+
 def verifier_gate(R, rule, vs):
     """Ok(()) of verify_response_with_signature is dominated by the success edges of the key lookup and of the
     ECDSA verification under that key (shared by C01 and, as the premise of the state machine's typestate, C02)."""
@@ -47,11 +83,16 @@ def verifier_gate(R, rule, vs):
             direct.append(x[3])
             continue
         R.violation(rule, "verifier:ok-producer", "the verifier's result is produced by `%s`, which can turn a failed verification into Ok" % (lib.norm(x[1]) if x[0] == "call" else fmt_t(x)[:80]))
+    oks_agg = list(oks2)
     oks2 = oks2 + direct
     if R.floor(rule, "Ok returns in the verifier", len(oks2), 1):
         for name, pred in (("key-registered", lambda h, si: "HashMap::" in h and h.endswith("::get")), ("ecdsa-verify", lambda h, si: h.endswith("Verifier::verify"))):
             es = success_edges(vs, pred)
-            R.check(rule, "verifier:" + name, es and all(vs.dominated_by_edge(o, es) for o in oks2), "Ok(()) is dominated by `%s`" % name, "the verifier can return Ok without `%s`" % name)
+            if name == "ecdsa-verify":
+                # a result handed on as the verification's own Result (only its error mapped) is Ok exactly when the verification is
+                R.check(rule, "verifier:" + name, (es or (direct and not oks_agg)) and all(vs.dominated_by_edge(o, es) for o in oks_agg), "Ok(()) only when `%s` succeeded" % name, "the verifier can return Ok without `%s`" % name)
+            else:
+                R.check(rule, "verifier:" + name, es and all(vs.dominated_by_edge(o, es) for o in oks2), "Ok(()) is dominated by `%s`" % name, "the verifier can return Ok without `%s`" % name)
         # exactly one signature verification, under the key that was looked up with the request's key id
         vcalls = [(bi, t) for bi, t in vs.calls() if (lib.norm(t.get("callee") or "")).endswith("Verifier::verify")]
         inner = [b2 for b2 in vs.crate.bodies if b2.get("parent") == vs.id and any((lib.norm(t.get("callee") or "")).endswith("Verifier::verify") for _, t in BV.of(b2).calls())]
@@ -72,48 +113,77 @@ def run(F, R):
     R.count("bodies", 4)
 
     # ---------------------------------------------------------------- R1 accept path gated by every check
-    R.rule("C01-R1", "every path to Ok(signature) passes, in order, the success edge of: ETag present, to_str, split at ':', hex(hash), hash == SHA-256(request body), hex(signature), DER decode, signature verification; the verifier's Ok passes key lookup and ECDSA verify")
-    oks = [bi for bi in sorted(vr.reach0) for s_ in vr.blocks[bi]["s"] if s_["k"] == "assign" and not s_["p"].get("p") and s_["p"]["l"] == 0 and s_["r"]["k"] == "agg" and s_["r"].get("vn") == "Ok"]
+    R.rule("C01-R1", "Ok(signature) is returned only behind the equal edge of the request-hash comparison and the success edge of the signature verification (path rule over verify_response and the helpers it calls); the compared hash and the verified signature are the Ok payloads of hex(hash half) / DER(hex(signature half)) of the ETag header of this response split at ':' (a payload exists only on the success edge of its check, so presence, text, split, hex and DER checks are implied); the verifier's Ok passes key lookup and ECDSA verify")
+    from .. import optnorm
+    from ..sm import reach_pf
+    names_vr = {1: "self", 2: "metadata", 3: "resp", 4: "key_id"}
+    KEEP = lambda n: n in ("parse_etag", "make_transaction_hash")
+    canon_of = lambda bv_, tm: optnorm.canon(terms.render(bv_, optnorm.inline_all(W, bv_, tm, KEEP), W, names_vr, transparent=NOERR))
+    ETAG_T = "parse_etag(to_str(get(headers(resp), http::header::ETAG)@OK)@OK)"
+    EXP_HASH = "decode(split_once(%s, 58)@OK.1)@OK" % ETAG_T
+    EXP_SIG = "from_bytes(decode(split_once(%s, 58)@OK.0)@OK)@OK" % ETAG_T
+    EXP_DIGEST = "Sha256::digest(metadata.request_body)"
+    S1 = flow.Super(W, vr.id)
+    live1 = S1.reach([S1.root.entry])
+    oks = [n.idx for n in S1.nodes if n.ctx is S1.root and n.idx in live1 and any(s_["k"] == "assign" and not s_["p"].get("p") and s_["p"]["l"] == 0 and s_["r"]["k"] == "agg" and s_["r"].get("vn") == "Ok" for s_ in n.block["s"])]
     if R.floor("C01-R1", "Ok returns in verify_response", len(oks), 1):
-        def is_hex(which):
-            def p(h, si):
-                if h != "hex::decode":
-                    return False
-                arg = [x for x in walk(si.term) if x[0] == "call" and x[1] == "hex::decode"][0][2][0]
-                s_ = terms.render(vr, arg, W, {}, transparent=NOERR)
-                return s_.endswith(".%d" % which) and "split_once" in s_
-            return p
-        checks = [
-            ("etag-present", lambda h, si: h.endswith("HeaderMap::<T>::get") and "ETAG" in terms.render(vr, si.term, W, {}, transparent=NOERR).upper()),
-            ("etag-is-text", lambda h, si: h.endswith("HeaderValue::to_str")),
-            ("split-at-colon", lambda h, si: h.endswith("::split_once")),
-            ("hash-is-hex", is_hex(1)),
-            ("signature-is-hex", is_hex(0)),
-            ("signature-is-der", lambda h, si: h.endswith("::from_bytes")),
-            ("signature-verifies", lambda h, si: h.endswith("Cupv2Verifier::verify_response_with_signature")),
-        ]
-        edges = {}
-        for name, pred in checks:
-            es = success_edges(vr, pred)
-            edges[name] = es
-            if not es:
-                R.violation("C01-R1", "check:" + name, "verify_response no longer performs the `%s` check" % name)
+        # (a) control: the comparison
+        eq_edges = []
+        cmp_nodes = []
+        for n in S1.nodes:
+            t = n.term
+            if n.idx not in live1 or t["k"] != "switch" or n.ctx.bv.switch_subject(n.bi) is not None or n.ctx.bv.crate.types[t["ot"]]["s"] != "bool":
                 continue
-            gated = all(vr.dominated_by_edge(o, es) for o in oks)
-            R.check("C01-R1", "check:" + name, gated, "Ok is dominated by the success edge of `%s`" % name, "a response can be accepted without passing the `%s` check" % name, lib.loc(vr, es[0][0]))
-        # hash comparison
-        cmp_e = vr.bool_edges(lambda t: t[0] == "call" and t[1] in ("std::cmp::PartialEq::ne", "std::cmp::PartialEq::eq"))
-        eq_edges = [(a, b) for (a, b, tr) in cmp_e if (vr.trace_op(vr.blocks[a]["t"]["o"])[1].endswith("::ne")) != tr]
-        edges["hash-matches"] = eq_edges
-        R.check("C01-R1", "check:hash-matches", eq_edges and all(vr.dominated_by_edge(o, eq_edges) for o in oks), "Ok is dominated by the equal edge of the request-hash comparison", "a response can be accepted without the request hash matching")
-        order = ["etag-present", "etag-is-text", "split-at-colon", "hash-is-hex", "hash-matches", "signature-is-hex", "signature-is-der", "signature-verifies"]
-        for a, b in zip(order, order[1:]):
-            if edges.get(a) and edges.get(b):
-                R.check("C01-R1", "order:%s<%s" % (a, b), all(vr.dominated_by_edge(x, edges[a]) for (x, _) in edges[b]), "%s before %s" % (a, b), "`%s` is evaluated on a path that has not passed `%s`" % (b, a))
-        # header looked up is ETAG
-        gets = [t for _, t in vr.calls() if lib.callee_is(t, "http::HeaderMap::<T>::get")]
-        keys = [terms.render(vr, vr.trace_op(t["args"][1]), W, {}) for t in gets]
-        R.check("C01-R1", "header-name", keys == ["hyper::header::ETAG"] or keys == ["http::header::ETAG"], str(keys), "header looked up: %s" % keys)
+            term = n.ctx.bv.trace_op(t["o"])
+            flip = False
+            while term[0] == "unop" and term[1] == "Not":
+                term = term[2]
+                flip = not flip
+            if not (term[0] == "call" and term[1] in ("std::cmp::PartialEq::ne", "std::cmp::PartialEq::eq")):
+                continue
+            sides = sorted(canon_of(n.ctx.bv, S1.resolve(n.ctx, a_)) for a_ in term[2])
+            if EXP_DIGEST not in sides:
+                continue
+            cmp_nodes.append((n, sides))
+            for b in S1.succ[n.idx]:
+                for l_ in S1.elabel.get((n.idx, b), []):
+                    if l_[0] == "switch" and l_[1] == n.bi:
+                        truth = ((l_[2] != 0) != flip)
+                        if truth == term[1].endswith("::eq"):
+                            eq_edges.append((n.idx, b))
+        if R.floor("C01-R1", "comparison of the request-body digest", len(cmp_nodes), 1):
+            r_ = reach_pf(S1, [S1.root.entry], cut_edges=eq_edges)
+            R.check("C01-R1", "check:hash-matches", eq_edges and not (set(oks) & r_), "Ok is reachable only through the equal edge of the request-hash comparison", "a response can be accepted without the request hash matching", cmp_nodes[0][0].loc())
+            other = [x for x in cmp_nodes[0][1] if x != EXP_DIGEST]
+            R.check("C01-R1", "compared-hash", other == [EXP_HASH], "digest(request body) == %s" % EXP_HASH,
+                    "the request-body digest is compared with %s, expected %s (whole Ok payload of hex-decoding the hash half of this response's ETag)" % ([o[:200] for o in other], EXP_HASH), cmp_nodes[0][0].loc())
+        # (b) control + data: the signature verification
+        ver_edges = []
+        ver_calls = []
+        for n in S1.nodes:
+            if n.idx not in live1:
+                continue
+            t = n.term
+            if t["k"] == "call" and lib.callee_is(t, "cup_ecdsa::Cupv2Verifier::verify_response_with_signature"):
+                ver_calls.append(n)
+            if t["k"] != "switch":
+                continue
+            si = guards.switch_info(n.ctx.bv, n.bi)
+            if si is None or si.kind != "discr" or not (lib.head_call(si.term) or "").endswith("Cupv2Verifier::verify_response_with_signature"):
+                continue
+            for b in S1.succ[n.idx]:
+                nm = [si.names.get(l_[2], str(l_[2])) for l_ in S1.elabel.get((n.idx, b), []) if l_[0] == "switch" and l_[1] == n.bi]
+                if any(x in ("Continue", "Ok") for x in nm):
+                    ver_edges.append((n.idx, b))
+        if R.floor("C01-R1", "calls of the signature verifier", len(ver_calls), 1):
+            r_ = reach_pf(S1, [S1.root.entry], cut_edges=ver_edges)
+            R.check("C01-R1", "check:signature-verifies", ver_edges and not (set(oks) & r_), "Ok is reachable only through the success edge of verify_response_with_signature", "a response can be accepted without its signature having been verified", ver_calls[0].loc())
+            R.check("C01-R1", "single-verification", len(ver_calls) == 1, "one verification call", "%d verification calls" % len(ver_calls))
+            sig = canon_of(ver_calls[0].ctx.bv, S1.trace(ver_calls[0], ver_calls[0].term["args"][1]))
+            R.check("C01-R1", "verified-signature", sig == EXP_SIG, "verified signature = " + EXP_SIG, "the verified signature is %s, expected %s" % (sig[:220], EXP_SIG), ver_calls[0].loc())
+            # verification comes after the hash comparison: the verifier is not even consulted for a mismatching hash
+            r2 = reach_pf(S1, [S1.root.entry], cut_edges=eq_edges)
+            R.check("C01-R1", "order:hash-matches<signature-verifies", eq_edges and not any(v.idx in r2 for v in ver_calls), "hash comparison before signature verification", "the signature is verified on a path that has not passed the request-hash comparison")
     verifier_gate(R, "C01-R1", vs)
 
     # ---------------------------------------------------------------- R2 argument positions
@@ -141,9 +211,12 @@ def run(F, R):
         agg = [x for x in walk(t) if x[0] == "agg" and x[2] and x[2].endswith("StandardCupv2Handler::StandardCupv2Handler")]
         if agg:
             nm = agg[0][4]
-            mp = terms.render(nw, agg[0][3][nm.index("parameters_by_id")], W, {1: "keys"})
             lt = terms.render(nw, agg[0][3][nm.index("latest_public_key_id")], W, {1: "keys"})
-            R.check("C01-R2", "key-map", mp.startswith("collect") and "chain(once(keys.latest), keys.historical)" in mp and "|$1| tuple{$1.id, $1.key}" in mp, mp[:160], "key map built as %s" % mp[:200])
+            okm, detm = key_map_registers_all(nw, W)
+            if okm is None:
+                R.inconclusive("C01-R2", "key-map", "the key map is built in a way this rule does not know: " + detm)
+            else:
+                R.check("C01-R2", "key-map", okm, detm, "key map built as %s" % detm)
             R.check("C01-R2", "latest-id", lt == "keys.latest.id", lt, "latest key id <- %s" % lt)
 
     # ---------------------------------------------------------------- R3 digest composition
@@ -152,7 +225,7 @@ def run(F, R):
     if R.floor("C01-R3", "finalize in make_transaction_hash", len(fin), 1):
         ret = strip(mth.trace_local(0))
         R.check("C01-R3", "returns-the-digest", ret[0] == "call" and ret[3] == fin[0], "returns finalize()", "make_transaction_hash does not return the finalized digest")
-        got = terms.digest_chain(mth, W, fin[0], {1: "request_body", 2: "response_body", 3: "key_id", 4: "nonce"})
+        got = terms.digest_chain(mth, W, fin[0], {1: "request_body", 2: "response_body", 3: "key_id", 4: "nonce"}, xform=lambda t_: optnorm.inline_all(W, mth, t_))
         R.check("C01-R3", "composition", got == EXPECTED_DIGEST, str(got), "digest is %s, expected %s" % (got, EXPECTED_DIGEST), lib.loc(mth, fin[0]))
     nd = lib.one(R, "C01-R3", c, "Display for Nonce", item="fmt", impl_self="cup_ecdsa::Nonce", impl_trait="std::fmt::Display")
     if nd:
@@ -178,13 +251,9 @@ def run(F, R):
         ra = terms.render(vr, a, W, names_vr, transparent=NOERR)
         rb = terms.render(vr, b, W, names_vr, transparent=NOERR)
         sl = [x for x in list(walk(a)) + list(walk(b)) if x[0] in ("subslice", "index", "cindex") or (x[0] == "call" and lib.norm(x[1]).split("::")[-1] in ("index", "get", "split_at", "starts_with", "ends_with", "take", "zip", "first", "last", "truncate", "split_first", "chunks", "iter", "get_unchecked", "first_chunk", "last_chunk") and any(k in lib.norm(x[1]) for k in ("slice", "Vec", "<impl [T]>", "Index", "Iterator", "GenericArray", "[T]")))]
-        sides = sorted([ra, rb])
-        exp = sorted(["Sha256::digest(metadata.request_body)", None]) if False else None
-        ok_a = "Sha256::digest(metadata.request_body)" in (ra, rb)
-        other = rb if ra == "Sha256::digest(metadata.request_body)" else ra
-        # the Ok payload of hex::decode(<hash half of the ETag>), whether taken with `?` or with a match
-        ok_b = other.startswith("decode(") and (other.endswith("@Continue.0") or other.endswith("@Ok.0")) and ".1)" in other
-        R.check("C01-R4", "operands", ok_a and ok_b and not sl, "%s  vs  %s" % (ra[:60], rb[:80]), "hash comparison is %s vs %s (slicing: %s)" % (ra[:100], rb[:100], [x[0] if x[0] != "call" else x[1] for x in sl]), lib.loc(vr, bi))
+        ra_c, rb_c = canon_of(vr, a), canon_of(vr, b)
+        R.check("C01-R4", "operands", sorted([ra_c, rb_c]) == sorted([EXP_DIGEST, EXP_HASH]) and not sl, "%s  vs  %s" % (ra_c[:60], rb_c[:80]),
+                "hash comparison is %s vs %s (slicing: %s)" % (ra_c[:120], rb_c[:160], [x[0] if x[0] != "call" else x[1] for x in sl]), lib.loc(vr, bi))
         tys = [c.types[x]["s"] for x in t.get("substs", []) if isinstance(x, int)]
         R.check("C01-R4", "operand-types", all(("[u8]" in x or "GenericArray" in x or "Vec<u8>" in x) for x in tys), str(tys)[:120], "comparison operand types: %s" % tys)
 
@@ -195,7 +264,8 @@ def run(F, R):
             ret = [x for x in walk(vr.trace_local(0)) if x[0] == "agg" and x[2] and x[2].endswith("Result::Ok")]
         if ret:
             s_ = terms.render(vr, ret[0][3][0], W, names_vr, transparent=NOERR)
-            R.check("C01-R5", "returned-signature", s_.startswith("from_bytes(decode(") and (s_.endswith("@Continue.0") or s_.endswith("@Ok.0")) and ".0)" in s_, s_[:120], "Ok carries %s" % s_[:160])
+            s_c = canon_of(vr, ret[0][3][0])
+            R.check("C01-R5", "returned-signature", s_c == EXP_SIG, s_c[:120], "Ok carries %s, expected %s" % (s_c[:200], EXP_SIG))
             same = False
             if call:
                 pass
@@ -209,7 +279,13 @@ def run(F, R):
     R.rule("C01-R7", "parse_etag accepts exactly W/\"..\", \"..\" and the identity")
     un = [(bi, t) for bi, t in pe.calls() if lib.callee_is(t, "std::str::from_utf8_unchecked")]
     shapes = []
-    if R.floor("C01-R6", "from_utf8_unchecked calls", len(un), 2):
+    safe_spelling = "unwrap_or(or_else(and_then(strip_prefix(etag, 'W/\"'), |$1| strip_suffix($1, 34)), || and_then(strip_prefix(etag, 34), |$1| strip_suffix($1, 34))), etag)"
+    if not un and terms.render(pe, pe.trace_local(0), W, {1: "etag"}) == safe_spelling:
+        # the same three shapes written with str::strip_prefix/strip_suffix: no unchecked conversion to justify
+        R.holds("C01-R6", "unchecked:none", "parse_etag uses no unchecked conversion (strip_prefix/strip_suffix spelling)")
+        R.holds("C01-R7", "accepted-shapes", "W/\"..\" then \"..\" then identity: " + safe_spelling)
+        R.holds("C01-R7", "identity-otherwise", "otherwise the ETag is used unchanged")
+    elif R.floor("C01-R6", "from_utf8_unchecked calls", len(un), 2):
         for bi, t in un:
             a = terms._unref(pe.trace_op(t["args"][0]))
             if a[0] != "subslice":
